@@ -527,9 +527,22 @@ def _targets_clean(prog, caller, t, node, depth):
     if tkey(t) == "self.targets" and caller.cls is not None and \
             caller.cls.name in ("LinearPsmDataset", "PsmDataset"):
         return True, ""
-    from ..tutil import strip_conv
+    from ..tutil import np_call, strip_conv
     s = strip_conv(t)
-    if s[0] == "param" and depth < 3:
+    # one fold's labels taken off a per-fold list handed in by the caller:
+    # np.hstack(L.pop(0)), L[i], an element of L ...
+    while True:
+        c = np_call(s)
+        if c and c[0] in ("hstack", "concatenate") and c[1]:
+            s = strip_conv(c[1][0])
+        elif s[0] == "mcall" and s[2] == "pop":
+            s = strip_conv(s[1])
+        elif s[0] in ("sub", "elem") and s[1][0] in ("param", "sub",
+                                                     "elem"):
+            s = strip_conv(s[1])
+        else:
+            break
+    if s[0] == "param" and depth < 4:
         pname = s[1]
         callers = prog.callers_of(caller.qual)
         if not callers:
@@ -561,7 +574,11 @@ def _targets_clean(prog, caller, t, node, depth):
                        f"({show(reads[0], 80)}) and used without "
                        "convert_targets_column: labels written as -1 count "
                        "as targets")
-    return False, f"labels come from {txt[:120]}"
+    # origin not recognised: neither a converted column, dataset targets nor
+    # an unconverted file read - the rule cannot judge this
+    raise AnalysisError(f"{caller.qual}: origin of the labels not "
+                        f"recognised ({txt[:120]}); rule C07b needs "
+                        "re-reading")
 
 
 # ------------------------------------------------------------------ c
